@@ -52,6 +52,28 @@ func main() {
 		r := &Run{P: p, Funcs: map[string]bool{}, Regions: map[string]int{}}
 		reg := r.Region(*flagInv, regionEntries[*flagInv], false)
 		fmt.Println("region", *flagInv, "functions:", r.Regions[*flagInv])
+		if os.Getenv("ZCHECK_SHAPES") != "" {
+			type trow struct {
+				F    string `json:"f"`
+				C    string `json:"c"`
+				File string `json:"file"`
+			}
+			var rows []trow
+			for _, n := range strings.Split(os.Getenv("ZCHECK_SHAPES"), ",") {
+				fn := p.Fn(n)
+				if fn == nil {
+					fmt.Fprintln(os.Stderr, "no such function", n)
+					os.Exit(2)
+				}
+				file, _ := p.FnPos(fn)
+				for _, s := range r.shapeOf(fn) {
+					rows = append(rows, trow{n, s, file})
+				}
+			}
+			b, _ := json.MarshalIndent(rows, "", " ")
+			fmt.Println(string(b))
+			return
+		}
 		if os.Getenv("ZCHECK_CACHES") != "" {
 			for _, h := range r.cacheInventory(strings.Split(os.Getenv("ZCHECK_CACHES"), ",")) {
 				fmt.Printf("%q: \"\", // %s %s:%d\n", h.Fn, h.What, h.File, h.Line)
